@@ -15,8 +15,17 @@ import (
 	"strings"
 	"time"
 
+	"github.com/aquilax/hranoprovod-cli/v3/verifshim"
 	"github.com/urfave/cli/v2"
 )
+
+func reversePerm(n int, site string) []int {
+	p := make([]int, n)
+	for i := range p {
+		p[i] = n - 1 - i
+	}
+	return p
+}
 
 type AppRun struct {
 	Stdout string // what the report wrote to os.Stdout
@@ -119,6 +128,10 @@ type appCase struct {
 	Env   map[string]string `json:"env,omitempty"`
 	TZ    int               `json:"tz_offset_s,omitempty"` // time.Local = FixedZone(offset)
 	Mod   func(a *cli.App)  `json:"-"`
+	// SortedMaps: deliver map keys in sorted order. By default (no explorer-installed
+	// order) every ranged map is delivered in REVERSE sorted order, so that a report
+	// that forgets to sort is exposed by every check, not only by C05.
+	SortedMaps bool `json:"sorted_maps,omitempty"`
 }
 
 func (c appCase) shell() string {
@@ -186,6 +199,10 @@ func runApp(c appCase) (res AppRun) {
 		}
 		res.AppOut = appOut.String()
 	}()
+	if verifshim.PermHook == nil && !c.SortedMaps {
+		verifshim.PermHook = reversePerm
+		defer func() { verifshim.PermHook = nil }()
+	}
 	a := GetApp()
 	a.Writer = &appOut
 	a.ErrWriter = &appOut
